@@ -82,7 +82,14 @@ void signature_case(const std::vector<uint8_t>& pre, const std::vector<uint8_t>&
 void violating_case(unsigned kind, uint64_t a, Stats& st) {
 	// pictures violating the constraints are refused on save and on load
 	std::vector<Color> pal(256); BitmapFile b; const char* what = "";
-	switch (kind % 4) {
+	switch (kind % 6) {
+	case 4: { // two fields wrong together so that a row still has 32 bytes: 4 bit x 63..64, 1 bit x 249..256
+		bool four = a & 1; uint32_t w = four ? 63 + uint32_t((a >> 1) & 1) : 249 + uint32_t((a >> 1) % 8); int32_t h = 32 * (1 + int32_t((a >> 5) % 3)); if (a & 0x10) h = -h;
+		b = BitmapFile::CreateIndexed(four ? 4 : 1, w, h); what = "depth/width pair with 32-byte rows"; break; }
+	case 5: { // arbitrary (depth, width, height) triple that is not a tileset
+		unsigned d = (a & 3) == 0 ? 1 : (a & 3) == 1 ? 4 : 8; uint32_t w = uint32_t((a >> 2) % 300); int32_t h = int32_t((a >> 11) % 5) * 32 + ((a >> 14) & 1 ? int32_t((a >> 15) % 32) : 0); if (a & 0x400) h = -h;
+		if (d == 8 && w == 32 && h % 32 == 0) w = 31;
+		b = BitmapFile::CreateIndexed(uint16_t(d), w, h); what = "arbitrary non-tileset triple"; break; }
 	case 0: b = BitmapFile::CreateIndexed(1, 32, 32); what = "depth 1"; break;
 	case 1: b = BitmapFile::CreateIndexed(4, 32, -64); what = "depth 4"; break;
 	case 2: { uint32_t w = uint32_t(a % 70); if (w == 32) w = 33; b = BitmapFile::CreateIndexed(8, w, 32); what = "width != 32"; break; }
@@ -92,7 +99,7 @@ void violating_case(unsigned kind, uint64_t a, Stats& st) {
 	V_CHECK(guarded([&] { Tileset::WriteCustomTileset(w, b); }) == Out::Err, "WriteCustomTileset accepted a picture with " << what);
 	V_CHECK(w.Length() == 0, "refused save still wrote " << w.Length() << " bytes");
 	V_CHECK(guarded([&] { load(bmp_bytes(b)); }) == Out::Err, "ReadTileset accepted a standard bitmap with " << what);
-	st.cls(std::string("violating:") + what); st.nt(hmix(kind % 4, a % 400) ^ 0x71);
+	st.cls(std::string("violating:") + what); st.nt(hmix(kind % 6, a % 70000) ^ 0x71);
 }
 
 void perturbed_custom(const Pic& p, size_t field, uint32_t value, Stats& st) {
@@ -112,7 +119,7 @@ void perturbed_custom(const Pic& p, size_t field, uint32_t value, Stats& st) {
 }
 
 Pic gen_pic(Tape& t) {
-	Pic p; uint32_t k = uint32_t(t.below(g_thorough ? 65 : 9)); if (t.below(4) == 0) k = t.pick<uint32_t>({0, 1, 2, 3});
+	Pic p; uint32_t k = uint32_t(t.below(g_thorough ? 65 : 9)); if (t.below(4) == 0) k = t.pick<uint32_t>({0, 1, 2, 3}); else if (t.below(8) == 0) k = t.pick<uint32_t>({31, 32, 33, 47, 63, 64, 65, 100});
 	p.h = 32 * k; p.pal.resize(256);
 	uint64_t s = t.u64() | 1; bool grey = t.below(6) == 0;
 	for (auto& c : p.pal) { s ^= s << 13; s ^= s >> 7; s ^= s << 17; c = {uint8_t(s >> 8), uint8_t(s >> 16), grey ? uint8_t(s >> 8) : uint8_t(s >> 24), uint8_t(s >> 32)}; }
@@ -126,7 +133,7 @@ void run_case(Tape& t, Stats& st) {
 	case 0: { auto pre = t.bytes(t.below(9)); std::vector<uint8_t> sig = t.pick<std::vector<uint8_t>>({{'P', 'B', 'M', 'P'}, {'P', 'B', 'M', 'Q'}, {'p', 'B', 'M', 'P'}, {'B', 'M', 0, 0}, {'P', 'B', 'M'}, {'Q', 'B', 'M', 'P'}, {'P', 'B', 'M', 'P' ^ 0x80}});
 		if (t.below(3) == 0) { sig = t.bytes(4); } if (t.below(4) == 0 && sig.size() == 4) sig[t.below(4)] ^= uint8_t(1u << t.below(8));
 		signature_case(pre, sig, t.bytes(t.below(6)), st); break; }
-	case 1: violating_case(unsigned(t.below(4)), t.u16(), st); break;
+	case 1: violating_case(unsigned(t.below(6)), t.u32(), st); break;
 	case 2: { Pic p = gen_pic(t); if (p.h > 64) { p.h = 64; p.rows.resize(64 * 32); } auto f = refgfx::tileset_fields(); size_t field = f[t.below(f.size())]; uint32_t val = t.pick<uint32_t>({0, 1, 2, 4, 8, 16, 31, 32, 33, 64, 1024, 1048, 0x14, 0x7FFFFFE0u, 0x80000000u, 0xFFFFFFE0u, 0xFFFFFFFFu, 0x10008u}); if (t.below(3) == 0) val = refvol::get32(refgfx::encode_tileset(p.h, p.pal, p.rows), field) ^ (1u << t.below(32)); perturbed_custom(p, field, val, st); st.nt(hmix(field, val) ^ 0x99); break; }
 	default: { Pic p = gen_pic(t); if (st.want_sample()) st.sample("{\"picture\":{\"height\":" + std::to_string(p.h) + ",\"palette0\":\"" + hex(p.pal.data(), 8) + "\",\"row0\":\"" + hex(p.rows, 16) + "\"}}"); picture_case(p, st); break; }
 	}
@@ -134,7 +141,9 @@ void run_case(Tape& t, Stats& st) {
 
 void run_sweep(Stats& st) {
 	std::vector<uint8_t> tp(64); for (size_t i = 0; i < tp.size(); ++i) tp[i] = uint8_t(i * 41 + 3);
-	for (uint32_t k = 0; k <= (g_thorough ? 64u : 12u); ++k) { if (!sw("heights", k)) continue; Tape t(tp); Pic p = gen_pic(t); p.h = 32 * k; p.rows.resize(size_t(p.h) * 32); for (size_t i = 0; i < p.rows.size(); ++i) p.rows[i] = uint8_t(i * 7 + k); picture_case(p, st); }
+	std::vector<uint32_t> hs; for (uint32_t k = 0; k <= (g_thorough ? 130u : 12u); ++k) hs.push_back(k);
+	if (!g_thorough) for (uint32_t k : {31u, 32u, 33u, 40u, 63u, 64u, 65u, 75u, 96u, 100u}) hs.push_back(k);   // beyond 1024 rows, around multiples of 1024 rows
+	for (uint32_t k : hs) { if (!sw("heights", k)) continue; Tape t(tp); Pic p = gen_pic(t); p.h = 32 * k; p.rows.resize(size_t(p.h) * 32); for (size_t i = 0; i < p.rows.size(); ++i) p.rows[i] = uint8_t(i * 7 + k); picture_case(p, st); }
 	// all one-bit neighbours of "PBMP" and a few signatures, at positions 0 and 5
 	const uint8_t sig[4] = {'P', 'B', 'M', 'P'};
 	for (unsigned pos : {0u, 5u}) for (int bit = -1; bit < 32; ++bit) { if (!sw("peek", pos, uint64_t(bit + 1))) continue; std::vector<uint8_t> s(sig, sig + 4); if (bit >= 0) s[bit / 8] ^= uint8_t(1u << (bit % 8)); signature_case(std::vector<uint8_t>(pos, 0xEE), s, {1, 2, 3}, st); }
@@ -143,6 +152,8 @@ void run_sweep(Stats& st) {
 	{ Tape t(tp); Pic p = gen_pic(t); p.h = 64; p.rows.assign(64 * 32, 0x21);
 	  for (size_t f : refgfx::tileset_fields()) for (uint32_t val : {0u, 1u, 2u, 4u, 8u, 16u, 31u, 32u, 33u, 64u, 96u, 1024u, 1048u, 2048u, 0x14u, 0x7FFFFFE0u, 0x80000000u, 0xFFFFFFE0u, 0xFFFFFFFFu, 0x10008u}) { if (!sw("perturb", f, val)) continue; perturbed_custom(p, f, val, st); } }
 	for (unsigned kind = 0; kind < 4; ++kind) for (uint64_t a : {uint64_t(0), uint64_t(31), uint64_t(33), uint64_t(0x1FF)}) if (sw("violating", kind, a)) violating_case(kind, a, st);
+	for (uint64_t a = 0; a < 64; ++a) if (sw("violating_pair", a)) violating_case(4, a, st);
+	for (uint64_t a = 0; a < 4096; a += 5) if (sw("violating_triple", a)) violating_case(5, a * 37, st);
 	st.exhaustive = true;
 }
 
